@@ -70,7 +70,7 @@ Op(name, u, id, a, f, e, res) == [name |-> name, u |-> u, id |-> id, a |-> a, f 
 
 NoTx == [st |-> None, u |-> None, amt |-> 0, fee |-> 0, b |-> 0]
 NoBt == [st |-> None, timeout |-> 0, block |-> 0]
-NoCl == [st |-> None, u |-> None, amt |-> 0, timeout |-> 0]
+NoCl == [st |-> None, u |-> None, r |-> None, amt |-> 0, timeout |-> 0]
 
 Init ==
   /\ bal = [u \in User |-> InitBal]
@@ -141,13 +141,13 @@ RequestBatch(base, minf) ==
      /\ op' = this
      /\ UNCHANGED <<bal, cl, ntx, ncl, fxH, obsExt, obsFx, lastObs, parked, extH, queue, xbt, xlast, xcl, cobs, ndep, obsDep, obsOut, extIn, extOut>>
 
-\* MsgBridgeCall with tokens (refund address = sender)
-BridgeCall(u, a) ==
-  LET this == Op("BridgeCall", u, 0, a, 0, None, "ok")
+\* MsgBridgeCall by u with tokens and refund address r (op field e carries r)
+BridgeCall(u, a, r) ==
+  LET this == Op("BridgeCall", u, 0, a, 0, r, "ok")
   IN IF ~(obsExt > 0 /\ bal[u] >= a) THEN Rej(this) ELSE
      /\ bal' = [bal EXCEPT ![u] = @ - a]
      /\ ncl' = ncl + 1
-     /\ cl' = [cl EXCEPT ![ncl + 1] = [st |-> "open", u |-> u, amt |-> a, timeout |-> Timeout(KC)]]
+     /\ cl' = [cl EXCEPT ![ncl + 1] = [st |-> "open", u |-> u, r |-> r, amt |-> a, timeout |-> Timeout(KC)]]
      /\ op' = this
      /\ UNCHANGED <<tx, bt, ntx, nbt, fxH, obsExt, obsFx, lastObs, parked, extH, queue, xbt, xlast, xcl, cobs, ndep, obsDep, obsOut, extIn, extOut>>
 
@@ -220,7 +220,7 @@ Observe ==
          timedB == {b \in BtIds : bt[b].st = "open" /\ b # execB /\ b \notin older /\ bt[b].timeout < h}
          backToPool == older \cup timedB
          timedC == CallsTimedOut(h)
-         refund(u) == SumSet({c \in timedC : cl[c].u = u}, [c \in ClIds |-> cl[c].amt])
+         refund(u) == SumSet({c \in timedC : cl[c].r = u}, [c \in ClIds |-> cl[c].amt])
      IN /\ queue' = Tail(queue) /\ lastObs' = n /\ obsExt' = h /\ obsFx' = fxH
         /\ parked' = [parked EXCEPT ![n] = IF e.t \in {"dep", "call"} THEN e ELSE NilEv]
         /\ cobs' = [c \in ClIds |-> IF e.t = "call" /\ e.a = c THEN (IF e.ok THEN "succ" ELSE "fail") ELSE cobs[c]]
@@ -248,7 +248,7 @@ ExecuteClaim(n) ==
        /\ UNCHANGED <<tx, bt, cl, ntx, nbt, ncl, fxH, obsExt, obsFx, lastObs, extH, queue, xbt, xlast, xcl, cobs, ndep, obsDep, obsOut, extIn, extOut>>
      ELSE \* bridge call result: refund on failure, delete the record
        IF cl[e.a].st # "open" THEN Rej(this) ELSE
-       /\ bal' = [bal EXCEPT ![cl[e.a].u] = @ + (IF e.ok THEN 0 ELSE cl[e.a].amt)]
+       /\ bal' = [bal EXCEPT ![cl[e.a].r] = @ + (IF e.ok THEN 0 ELSE cl[e.a].amt)]
        /\ cl' = [cl EXCEPT ![e.a] = [NoCl EXCEPT !.st = "gone"]]
        /\ parked' = [parked EXCEPT ![n] = NilEv]
        /\ op' = this
@@ -261,7 +261,7 @@ Next ==
   \/ \E u \in User, i \in 1..MaxTx, e \in Entries : Cancel(u, i, e)
   \/ (FeeOps /\ \E u \in User, i \in 1..MaxTx : IncreaseFee(u, i, 1) \/ IncreaseFeeOther(u, i, 1))
   \/ \E b \in BaseFees, m \in MinFees : RequestBatch(b, m)
-  \/ \E u \in User, a \in Amt : BridgeCall(u, a)
+  \/ \E u \in User, a \in Amt, r \in User : BridgeCall(u, a, r)
   \/ FxBlock \/ ExtBlock
   \/ \E u \in User : ExtDeposit(u, 1)
   \/ \E b \in 1..MaxBatch : ExtExecBatch(b)
@@ -277,7 +277,7 @@ Do(e) ==
     [] e.name = "Cancel"       -> Cancel(e.u, e.id, e.e)
     [] e.name = "IncreaseFee"  -> IF e.e = "other" THEN IncreaseFeeOther(e.u, e.id, e.f) ELSE IncreaseFee(e.u, e.id, e.f)
     [] e.name = "RequestBatch" -> RequestBatch(e.a, e.f)
-    [] e.name = "BridgeCall"   -> BridgeCall(e.u, e.a)
+    [] e.name = "BridgeCall"   -> BridgeCall(e.u, e.a, e.e)
     [] e.name = "FxBlock"      -> FxBlock
     [] e.name = "ExtBlock"     -> ExtBlock
     [] e.name = "ExtDeposit"   -> ExtDeposit(e.u, e.a)
@@ -365,15 +365,21 @@ C05_CancelBatchRestores == [][A_C05_CancelBatchRestores]_vars
 A_C05_CallSettlement ==
   \A c \in ClIds : (cl[c].st = "open" /\ cl'[c].st = "gone") =>
      \/ /\ op'.name = "ExecuteClaim" /\ parked[op'.id].t = "call" /\ parked[op'.id].a = c
-        /\ bal' = [bal EXCEPT ![cl[c].u] = @ + (IF parked[op'.id].ok THEN 0 ELSE cl[c].amt)]
+        /\ bal' = [bal EXCEPT ![cl[c].r] = @ + (IF parked[op'.id].ok THEN 0 ELSE cl[c].amt)]   \* a failed call is refunded to its refund address
      \/ op'.name = "Observe"    \* timeout refund: exactness by C04_Conservation, legitimacy by C06
 C05_CallSettlement == [][A_C05_CallSettlement]_vars
+\* a timeout refund credits exactly the refund addresses of the calls that left, with exactly their amounts
+A_C05_TimeoutRefundExact ==
+  (op'.name = "Observe" /\ op'.res = "ok") =>
+     LET left == {c \in ClIds : cl[c].st = "open" /\ cl'[c].st = "gone"}
+     IN \A u \in User : bal'[u] = bal[u] + SumSet({c \in left : cl[c].r = u}, [c \in ClIds |-> cl[c].amt])
+C05_TimeoutRefundExact == [][A_C05_TimeoutRefundExact]_vars
 \* once its execution has been observed, a bridge call can no longer be refunded: it leaves only through
 \* the execution of its parked result claim, and the creator is paid nothing for a successful one
 A_C05_NoRefundAfterObservedExecution ==
   \A c \in ClIds : (cl[c].st = "open" /\ cobs[c] = "succ" /\ cl'[c].st = "gone") =>
      /\ op'.name = "ExecuteClaim" /\ parked[op'.id].t = "call" /\ parked[op'.id].a = c
-     /\ bal'[cl[c].u] = bal[cl[c].u]
+     /\ bal'[cl[c].u] = bal[cl[c].u] /\ bal'[cl[c].r] = bal[cl[c].r]
 C05_NoRefundAfterObservedExecution == [][A_C05_NoRefundAfterObservedExecution]_vars
 
 \* ---- C06
